@@ -60,6 +60,62 @@ def mk(cls, bits: str):
     return cls(bin=bits) if bits else cls()
 
 
+# Ways in which a MUTABLE object can have come to hold `bits` (all in msb0 terms; the caller pins lsb0 off around the build).
+MADE_ROUTES = ['bin', 'bin', 'token', 'from-BitArray', 'from-BitStream', 'from-Bits', 'copy', 'copy.copy', 'pack', 'bin-assigned', 'uintN-assigned',
+               'appended-to-empty', 'cleared-then-iadd', 'slice-of-longer', 'add-halves', 'bytes-offset', 'shifted-out-then-or']
+
+
+def mk_via(cls, bits: str, route: str):
+    """An object of the mutable class cls holding bits, made along `route` (falls back to the canonical route where one does not apply)."""
+    import copy as _copy
+    if isinstance(cls, str):
+        cls = CLASSES[cls]
+    L = len(bits)
+    tok = ('0b' + bits) if L else ''
+    if route == 'token':
+        return cls(tok)
+    if route in ('from-BitArray', 'from-BitStream', 'from-Bits'):
+        return cls(mk(route[5:], bits))
+    if route == 'copy':
+        return mk(cls, bits).copy()
+    if route == 'copy.copy':
+        return _copy.copy(mk(cls, bits))
+    if route == 'pack':
+        o = bitstring.pack('bits', mk(Bits, bits))
+        return o if cls is BitStream else cls(o)
+    if route == 'bin-assigned':
+        t = cls('0b1')
+        t.bin = bits
+        return t
+    if route == 'uintN-assigned' and 0 < L <= 64:
+        t = cls()
+        setattr(t, f'uint{L}', int(bits, 2))
+        return t
+    if route == 'appended-to-empty':
+        t = cls()
+        t.append(tok)
+        return t
+    if route == 'cleared-then-iadd':
+        t = mk(cls, '1101')
+        t.clear()
+        t += tok
+        return t
+    if route == 'slice-of-longer':
+        return mk(cls, '10' + bits + '011')[2:L + 2]
+    if route == 'add-halves':
+        return mk(cls, bits[:L // 2]) + mk(cls, bits[L // 2:])
+    if route == 'bytes-offset':
+        padded = '101' + bits
+        padded += '1' * (-len(padded) % 8)
+        return cls(bytes=int(padded, 2).to_bytes(len(padded) // 8, 'big'), offset=3, length=L) if L else cls()
+    if route == 'shifted-out-then-or' and L:
+        t = mk(cls, '1' * L)
+        t <<= L
+        t |= tok
+        return t
+    return mk(cls, bits)
+
+
 def B(s) -> str:
     """Public observation of the content as a '0'/'1' string."""
     return s.bin if len(s) else ''
@@ -96,7 +152,7 @@ def operand_spec(rng, bits: str, kinds=None):
     """Choose a way to hand `bits` to the library; byte-based kinds only when whole bytes."""
     kinds = kinds or OPERAND_KINDS
     k = rng.choice(kinds)
-    if k in ('bytes', 'bytearray', 'memoryview', 'bytes-sub', 'bytearray-sub', 'memoryview-ro') and (len(bits) % 8 or not bits):
+    if k in ('bytes', 'bytearray', 'memoryview', 'bytes-sub', 'bytearray-sub', 'memoryview-ro', 'BytesIO', 'BytesIO-used', 'BytesIO-written') and (len(bits) % 8 or not bits):
         k = 'str'
     return [k, bits]
 
@@ -198,6 +254,16 @@ def build_operand(spec, receiver=None):
         return bitarray.bitarray(bits)
     if k == 'BytesIO':
         return io.BytesIO(int(bits, 2).to_bytes(len(bits) // 8, 'big') if bits else b'')
+    if k in ('BytesIO-used', 'BytesIO-written'):
+        # an in-memory file that is not at its start: read before, or filled by write() - its VALUE is what it stands for
+        raw = int(bits, 2).to_bytes(len(bits) // 8, 'big') if bits else b''
+        if k == 'BytesIO-used':
+            f = io.BytesIO(raw)
+            f.read(len(raw) // 2 + 1)
+        else:
+            f = io.BytesIO()
+            f.write(raw)
+        return f
     if k == 'array':
         return array.array('B', int(bits, 2).to_bytes(len(bits) // 8, 'big') if bits else b'')
     raise KeyError(k)
